@@ -267,7 +267,7 @@ class Runner:
                           os.path.join(d, "model-%s.txt" % s), oc, "rp/" + s)
         return oc, d
 
-    def shrink(self, case_ops, variant, kind, budget=60):
+    def shrink(self, case_ops, variant, kind, budget=30):
         """delta debugging on the op lines of one case; keeps the case line. kind in spec|l1|l2"""
         def bad(ops):
             oc, _ = self.replay_case(ops, variant)
